@@ -428,6 +428,21 @@ class _NP:
         k = "i" if kind_of(start) == "int" and kind_of(stop) == "int" else "f"
         return new_array((n,), lambda idx: lift(start + idx[0]), k)
 
+    def argsort(self, a, axis=-1, kind=None, order=None):
+        """Indices that sort a 1-D array: a permutation of 0..n-1 along which the values are non-decreasing
+        (the order among equal values is left unspecified, as for numpy's default unstable sort)."""
+        _use("argsort")
+        a = as_array(a)
+        if a.ndim != 1 or order is not None:
+            raise Unsupported("argsort of a rank-%d array" % a.ndim)
+        n = a.shape[0]
+        idx = havoc_array("argsort", (n,), "i")
+        ia, av = idx.snapshot(), a.snapshot()
+        S.assume(S.Forall((n,), lambda i: and_(ia(i) >= 0, ia(i) < n), name="argsort.index_in_range"))
+        S.assume(S.Forall((n, n), lambda i, j: implies(i != j, ia(i) != ia(j)), name="argsort.permutation"))
+        S.assume(S.Forall((n,), lambda i: implies(i >= 1, _numeric(av(ia(i - 1))) <= _numeric(av(ia(i)))), name="argsort.sorted"))
+        return idx
+
     def linspace(self, start, stop, num=50, endpoint=True):
         """linspace over the reals: node i = start + i*(stop-start)/(num-1); num==1 -> [start]."""
         _use("linspace")
